@@ -178,7 +178,7 @@ func KeyName(t *tape.Tape, i int) []byte {
 type RDBOpts struct {
 	MaxKeys     int
 	MaxDBs      int
-	MaxElem     int  // longest element
+	MaxElem     int // longest element
 	Kinds       []rc.Kind
 	NoMeta      bool // no aux / resizedb / moduleaux
 	NoModuleAux bool
